@@ -3,14 +3,14 @@ POST-policy document (replay `post-form <variant>`), through S3Service::call wit
 VARIANTS = {
     "has_not_expired": ["expired"],
     "policy_condition": ["key-condition", "length-condition"],
-    "signed_with_the_providers_secret": ["bad-signature", "other-secret"],
+    "signed_with_the_providers_secret": ["bad-signature", "other-secret", "empty-signature", "truncated-signature", "extended-signature"],
     "a_signed_form_is_accepted": ["valid"],
     "kept_for_the_decoder": ["valid"],
     "extract": ["valid", "bad-signature"],
     "multipart.field": ["field-whitespace", "valid"],
     "aggregate": ["unterminated-file", "binary-file", "valid"],
 }
-ALL = ["valid", "binary-file", "field-whitespace", "unterminated-file", "bad-signature", "other-secret"]
+ALL = ["valid", "binary-file", "field-whitespace", "unterminated-file", "bad-signature", "other-secret", "empty-signature", "truncated-signature", "extended-signature"]
 def _run(ctx, variants):
     res = None
     for v in variants:
